@@ -25,7 +25,7 @@ ASSUMPTIONS = [
 
 def floors(tier):
     return {"states_checked": 3000, "pairs_matched_bit_exact": 8000, "chains_skipping_an_iterate": 60, "restart_states_checked": 150, "chains_continued_with_a_memory_of_one_or_two_pairs": 100,
-            "inherited_pairs_checked": 300, "operators_spd_checked": 2500, "diag_operators": 800, "diag_operators_with_zero_columns": 200, "diag_operators_with_columns_of_order_1e-170_and_below": 150, "diag_operators_on_a_length_scale_of_1e-165_and_below": 100, "diag_requested_again_after_in_place_edit": 300, "rejected_pair_then_failed_search_then_progress": 20, "second_continuations_from_one_checkpoint_object": 40, "switch_states_checked": 300, "switch_runs_traced_through_a_logger": 60, "diagonals_held_by_the_caller_re-read_after_later_extractions": 3000, "__nontrivial__": 150}
+            "inherited_pairs_checked": 300, "operators_spd_checked": 2500, "diag_operators": 800, "diag_operators_with_zero_columns": 200, "diag_operators_with_columns_of_order_1e-170_and_below": 150, "diag_operators_on_a_length_scale_of_1e-165_and_below": 100, "diag_requested_again_after_in_place_edit": 300, "rejected_pair_then_failed_search_then_progress": 20, "second_continuations_from_one_checkpoint_object": 40, "switch_states_checked": 300, "continuations_whose_update_function_rewrites_the_restored_gradients_in_place": 200, "switch_runs_traced_through_a_logger": 60, "diagonals_held_by_the_caller_re-read_after_later_extractions": 3000, "__nontrivial__": 150}
 
 
 def cases(tier, seed):
@@ -81,6 +81,11 @@ def cases(tier, seed):
                                             "vseed": int(rng.integers(0, 2**31 - 1)), "strength": float(rng.uniform(0.5, 4.0)),
                                             "eps_SY": float(gen.pick(rng, [2.2e-16, 2.2e-16, 1e-2]))}, "ftarget_stop": bool(i % 4 == 0),
                "iprint": int(gen.pick(rng, [-1, 0, 50, 99, 100, 101, 1000])) if i % 3 == 1 else None}
+    for i in range(250 if tier == "quick" else 6000):
+        ps = gen.rand_spec(rng, ("qp", "qp_quartic"), nmax=7, nmin=2, boxes=("none", "mixed", "boxed"), starts=("interior", "face"), condmax=1e3)
+        yield {"kind": "switch_on_restart", "switch": {"problem": ps, "maxcor": int(rng.integers(3, 8)), "switch_at": int(rng.integers(3, 8)),
+                                                         "variant": gen.pick(rng, ["indefinite", "indefinite", "reg"]), "vseed": int(rng.integers(0, 2**31 - 1)),
+                                                         "strength": float(rng.uniform(0.5, 4.0)), "eps_SY": float(gen.pick(rng, [2.2e-16, 2.2e-16, 1e-2]))}}
     nd = 60 if tier == "quick" else 1500
     for i in range(nd):
         yield {"kind": "diag", "seed": subseed("C18d", seed, i) % (2**31), "count": 40}
@@ -362,6 +367,57 @@ def diag_case(spec, out, keys):
     out.sample = dict(spec=spec, last=last)
 
 
+def switch_on_restart_case(spec, out, keys):
+    """The objective is redefined between a run and its continuation: the update function of the continuation rewrites, at its initial
+    call, the restored stored gradients IN PLACE (same container, same arrays) with those of the new objective. Every state and the
+    result of the continuation still carry at most maxcor pairs, each with positive curvature."""
+    from .C13 import Switched, make_fB
+
+    sw = spec["switch"]
+    P0 = gen.make_problem(sw["problem"])
+    fB, gB, desc = make_fB(P0, sw)
+    cfg = dict(jac="callable", maxcor=sw["maxcor"], maxls=20, ftol=0.0, gtol=1e-10, maxfun=10000, eps_SY=float(sw.get("eps_SY", 2.2e-16)))
+    first = probes.run_min(P0, dict(cfg, maxiter=sw["switch_at"] + 1))
+    if first.exc is not None or first.result.hess_inv.sk.shape[0] < 2:
+        out.count("switch_never_reached")
+        return
+    S = Switched(P0, fB, gB)
+    S.on = True
+    calls = {"n": 0}
+
+    def ufd(x, f0, f0_old, grad, X, G):
+        calls["n"] += 1
+        if calls["n"] > 1:
+            return f0, f0_old, grad, G
+        for xi, gi in zip(X, G):
+            gi[:] = gB(np.array(xi, copy=True))
+        xo = np.array(X[-1], copy=True) if len(X) else np.array(x, copy=True)
+        return fB(np.array(x, copy=True)), fB(xo), gB(np.array(x, copy=True)), G
+
+    for extra in (0, 2):
+        calls["n"] = 0
+        tr = probes.run_min(S, dict(cfg, maxiter=int(first.result.nit) + extra, cb="never"), hooks={"ufd": ufd}, checkpoint=probes.deep(first.result),
+                            x0=np.array(first.result.x, dtype=float, copy=True))
+        out.count("continuations_whose_update_function_rewrites_the_restored_gradients_in_place")
+        if tr.exc is not None:
+            out.violate("run_raised_after_objective_switch", f"switch on restart ({desc}, +{extra} iterations): {tr.exc!r}", kind="switch_on_restart", exc=type(tr.exc).__name__)
+            return
+        for name, snap in [(f"callback#{i}", r["snap"]) for i, r in enumerate(tr.cb)] + [("result", tr.snap)]:
+            sk, yk = snap["sk"], snap["yk"]
+            out.count("switch_states_checked")
+            if sk.shape[0] > sw["maxcor"]:
+                out.violate("too_many_pairs", f"switch on restart {name}: {sk.shape[0]} pairs with maxcor={sw['maxcor']}", kind="switch_on_restart")
+                return
+            curv = np.einsum("ij,ij->i", sk, yk)
+            if sk.shape[0] and not np.all(curv > 0):
+                j = int(np.argmin(curv))
+                out.violate("pair_without_curvature", f"switch on restart ({desc}, gradients rewritten in place at the initial call, +{extra} iterations) {name}: pair {j} of "
+                            f"{sk.shape[0]} has s.y = {curv[j]!r}: the operator is not positive definite", kind="switch_on_restart")
+                return
+    keys.add(f"switch_on_restart/{sw['problem']['seed']}/{sw['vseed']}")
+    out.sample = dict(spec=spec)
+
+
 def switch_case(spec, out, keys):
     """Objective redefinition on the fly: every state and the result must still carry at most maxcor pairs, all with positive
     curvature, and a symmetric positive definite operator (that the pairs are differences of the rewritten gradients is judged by C13)."""
@@ -411,7 +467,9 @@ def switch_case(spec, out, keys):
 def run(spec):
     out = Outcome()
     keys = set()
-    if spec["kind"] == "switch":
+    if spec["kind"] == "switch_on_restart":
+        switch_on_restart_case(spec, out, keys)
+    elif spec["kind"] == "switch":
         switch_case(spec, out, keys)
     elif spec["kind"] == "run":
         run_case(spec, out, keys)
